@@ -41,6 +41,10 @@ def main(argv):
         rep.coverage["transitions"] += tr["generated"]
         rep.coverage["primitive_events_checked"] = tr["events"]
         rep.coverage["traces_validated_against_impl"] += tr["behaviours"]
+        if not args.replay:
+            from . import designfam
+
+            designfam.attach(rep, PROP, args.tier, d, args.jobs)
     finally:
         tlc.cleanup(d)
     rep.assumptions += ["TLC and the CommunityModules Json reader", "harness projection (harness/project.py) faithfully flattens the live objects",
